@@ -276,6 +276,33 @@ def check_note(crate, rep, cfg):
     vm = crate.one("vm::interpreter::VirtualMachine::<'tera>::interpret")
     n = len(list(find_calls(vm, ["errors::ReportError::add_note"])))
     rep.floor("C12.NOTE", "add_note call sites in the VM (include + component expansions) [%s]" % cfg, n, 3)
+    # ... on EVERY route: an error coming out of render_include / render_component leaves interpret only through the place that decides
+    # about the note (the `ErrorKind::RenderingError` test in front of add_note) — no `?` directly on the nested render
+    ef = EdgeFacts(vm, crate)
+    heads = {bb for bb, t in find_calls(vm, ["parsing::instructions::Chunk::get"])}
+    notes = {bb for bb, t in find_calls(vm, ["errors::ReportError::add_note"])}
+    kblocks = set()
+    for sb in sorted(vm.reachable):
+        if vm.term(sb)["k"] != "switch":
+            continue
+        for tgt, fl in ef.facts_for_switch(sb).items():
+            for f in fl:
+                if f[0] == "variant" and f[1] == "errors::ErrorKind" and f[4] and set(f[3]) == {"RenderingError"} and \
+                        any(nb in vm.reach_from(tgt, removed_blocks=frozenset(heads)) for nb in notes):
+                    kblocks.add(sb)
+    k = 0
+    for bb, t in vm.calls():
+        cd = callee_def(t)
+        if not (cd.endswith("::render_include") or cd.endswith("::render_component")):
+            continue
+        reach = vm.reach_from(bb, removed_blocks=frozenset((heads | kblocks) - {bb}))
+        leaks = sorted(x for x in reach if vm.term(x)["k"] == "return")
+        ok = bool(kblocks) and not leaks
+        rep.add("C12.NOTE", "C12.NOTE:vm:%s#%d:error-exit-through-note-site" % (cd.rsplit("::", 1)[-1], k), ok, vm.where(bb), "an error of the nested render leaves interpret only "
+                "through the RenderingError test that adds the `called from` note (whatever capture the call sits in)" + ("" if ok else " — VIOLATED: return at %s is reachable "
+                                                                                                                         "without it" % (vm.where(leaks[0]) if leaks else "?")))
+        k += 1
+    rep.floor("C12.NOTE", "nested renders whose error exit is checked [%s]" % cfg, k, 4)
 
 
 def check_pos(crate, rep, cfg):
